@@ -146,6 +146,19 @@ let handle () =
      | "imax" -> let v = (match !toks with [] -> "" | _ -> next ()) in sb (parse_imax_gen (v = "") (iv v))
      | "istop" -> String.concat " " (List.map ocaml_string istop_values_gen)
      | s -> failwith ("optparse " ^ s))
+  | "parse" ->
+    (* parse <table> <k> u1..uk <leaf> <n> { <binop> <k> u1..uk <leaf> } ; leaves are numbered by the caller *)
+    let tbl = (match next () with "body" -> tel_body_table_gen | "head" -> tel_head_table_gen | "py" -> py_head_table_gen | "del" -> del_table_gen
+               | "doc" -> documented_tel | "dochead" -> documented_head | "docdel" -> documented_del | s -> failwith ("table " ^ s)) in
+    let elem () = let us = list (fun () -> coq_string (next ())) in let n = nat () in (us, n) in
+    let first = elem () in
+    let rest = list (fun () -> let o = coq_string (next ()) in let e = elem () in (o, e)) in
+    if not (known tbl first rest) then "unknown-operator" else
+    let rec show = function
+      | Leaf n -> string_of_int (int_of_nat n)
+      | Un (o, t) -> "(" ^ ocaml_string o ^ " " ^ show t ^ ")"
+      | Bin (o, l, r) -> "(" ^ ocaml_string o ^ " " ^ show l ^ " " ^ show r ^ ")" in
+    show (parse_tbl tbl first rest)
   | "defaults" ->
     Printf.sprintf "%d %s %s" (int_of_nat default_imin_gen)
       (match default_imax_gen with None -> "-" | Some m -> string_of_int (int_of_nat m))
